@@ -524,4 +524,157 @@ Section ExpandProofs.
         - inversion Hh as [|? ? Ht Hh']; subst. simpl. rewrite Ht. now apply IH. }
       now rewrite S.
   Qed.
+
+  (* ------------------------------------------------------------------ columns *)
+  Variable is_column_width is_column_count : tok -> bool.
+  Notation columns_inner := (columns_inner is_column_width is_column_count).
+  Notation columns_loop := (columns_loop is_column_width is_column_count).
+  Notation expand_columns :=
+    (expand_columns V0 known supported prop_validator is_column_width is_column_count).
+
+  Lemma columns_loop_names ts nm y nm' :
+    columns_loop ts nm = Ok (y, nm') -> Forall (fun p => In (fst p) COLUMNS_NAMES) y.
+  Proof.
+    revert nm y nm'. induction ts as [|t ts IH]; intros nm y nm' H; simpl in H.
+    - inversion H. constructor.
+    - destruct (is_column_width t && _).
+      + unfold bind in H. destruct (columns_loop ts (Some "column-width")) as [[y0 n0]| |] eqn:E; try discriminate.
+        inversion H; subst. constructor; [simpl; auto|]. eapply IH; eauto.
+      + destruct (is_column_count t); try discriminate.
+        unfold bind in H. destruct (columns_loop ts (Some "column-count")) as [[y0 n0]| |] eqn:E; try discriminate.
+        inversion H; subst. constructor; [simpl; auto|]. eapply IH; eauto.
+  Qed.
+
+  (* columns: 2 100px = columns: 100px 2 - given that only `auto` is both a width and a count, which is the
+     case of the real column_width / column_count *)
+  Lemma columns_inner_swap a b :
+    (forall t, is_column_width t = true -> is_column_count t = true -> kw_is t "auto" = true) ->
+    kw_is a "auto" && kw_is b "auto" = false ->
+    same_yield (columns_inner [a; b]) (columns_inner [b; a]).
+  Proof.
+    intros Hboth Hnb. pose proof (Hboth a) as Ha. pose proof (Hboth b) as Hb.
+    unfold C07Expand.columns_inner.
+    destruct (kw_is a "auto") eqn:Ka, (kw_is b "auto") eqn:Kb;
+      destruct (is_column_width a) eqn:Wa, (is_column_count a) eqn:Ca,
+               (is_column_width b) eqn:Wb, (is_column_count b) eqn:Cb;
+      try (simpl in Hnb; discriminate);
+      try (specialize (Ha eq_refl eq_refl); discriminate);
+      try (specialize (Hb eq_refl eq_refl); discriminate);
+      simpl; rewrite ?Wa, ?Ca, ?Wb, ?Cb; simpl; rewrite ?Wa, ?Ca, ?Wb, ?Cb; simpl;
+      auto using perm_swap, Permutation_refl.
+  Qed.
+
+  Theorem columns_order_free a b name :
+    (forall t, is_column_width t = true -> is_column_count t = true -> kw_is t "auto" = true) ->
+    kw_is a "auto" && kw_is b "auto" = false ->
+    any_var [a; b] = false ->
+    expand_columns [a; b] name = expand_columns [b; a] name.
+  Proof.
+    intros Hboth Hnb Hv. unfold C07Expand.expand_columns.
+    apply generic_expander_order_free; auto.
+    - apply perm_swap.
+    - now apply columns_inner_swap.
+    - intros y Hy. unfold C07Expand.columns_inner in Hy. unfold bind in Hy.
+      destruct (columns_loop _ None) as [[y0 n0]| |] eqn:E; try discriminate.
+      apply columns_loop_names in E.
+      destruct (if kw_is a "auto" then [b; a] else [a; b]) as [|x [|x2 r]]; inversion Hy; subst; auto.
+      apply Forall_app. split; auto. constructor; [|constructor].
+      simpl. destruct n0 as [n|]; [destruct (String.eqb n "column-count")|]; auto.
+  Qed.
+
+  (* ------------------------------------------------------------------ flex *)
+  Variable is_flex_basis : tok -> bool.
+  Variable flex_factor : tok -> option (Q * option Z).
+  Notation flex_inner := (flex_inner is_flex_basis flex_factor).
+
+  Definition flex_yield (g s : Q * option Z) (b : tok) : res (list (string * list tok)) :=
+    Ok [("-grow", [num_tok g]); ("-shrink", [num_tok s]); ("-basis", [b])].
+
+  (* css-flexbox-1 7.1: none | [ <flex-grow> <flex-shrink>? || <flex-basis> ] ; omitted grow and shrink are 1,
+     an omitted basis is 0 ; a unitless zero not preceded by two factors is a factor *)
+  Theorem flex_rule g s b z G S Z0 :
+    get_keyword g = None -> is_int_zero g = false -> is_flex_basis g = false -> flex_factor g = Some G ->
+    get_keyword s = None -> is_int_zero s = false -> is_flex_basis s = false -> flex_factor s = Some S ->
+    is_int_zero b = false -> is_flex_basis b = true -> kw_is b "none" = false -> flex_factor b = None ->
+    is_int_zero z = true -> get_keyword z = None -> flex_factor z = Some Z0 -> is_flex_basis z = true ->
+    flex_inner [TIdent "none" "none"] = flex_yield (0%Q, Some 0%Z) (0%Q, Some 0%Z) AUTO /\
+    flex_inner [g] = flex_yield G ONE ZERO_PX /\
+    flex_inner [g; s] = flex_yield G S ZERO_PX /\
+    flex_inner [b] = flex_yield ONE ONE b /\
+    flex_inner [g; b] = flex_yield G ONE b /\
+    flex_inner [b; g] = flex_yield G ONE b /\
+    flex_inner [g; s; b] = flex_yield G S b /\
+    flex_inner [b; g; s] = flex_yield G S b /\
+    flex_inner [z] = flex_yield Z0 ONE ZERO_PX /\
+    flex_inner [g; z] = flex_yield G Z0 ZERO_PX /\
+    flex_inner [g; s; z] = flex_yield G S z /\
+    flex_inner [g; s; g] = Invalid /\
+    flex_inner [b; b] = Invalid.
+  Proof.
+    intros Kg Zg Bg Fg Ks Zs Bs Fs Zb Bb Kb Fb Zz Kz Fz Bz.
+    assert (Kb' : single_kw_in [b] ["none"] = None).
+    { unfold single_kw_in, get_single_keyword. unfold kw_is in Kb. destruct (get_keyword b); auto.
+      simpl. rewrite Kb. reflexivity. }
+    unfold C07Expand.flex_inner, flex_yield.
+    repeat split;
+      unfold single_kw_in, get_single_keyword; rewrite ?Kg, ?Ks, ?Kz; try rewrite Kb';
+      try (unfold single_kw_in, get_single_keyword in Kb'; rewrite Kb');
+      simpl; rewrite ?Zg, ?Zs, ?Zb, ?Zz, ?Bg, ?Bs, ?Bb, ?Bz, ?Fg, ?Fs, ?Fz, ?Fb; simpl;
+      rewrite ?Zg, ?Zs, ?Zb, ?Zz, ?Bg, ?Bs, ?Bb, ?Bz, ?Fg, ?Fs, ?Fz, ?Fb; simpl;
+      rewrite ?Zg, ?Zs, ?Zb, ?Zz, ?Bg, ?Bs, ?Bb, ?Bz, ?Fg, ?Fs, ?Fz, ?Fb; simpl; try reflexivity.
+  Qed.
+
+  (* not in the grammar (the two factors must be adjacent) and yet accepted: a finding *)
+  Theorem flex_accepts_basis_between_factors g s b G S :
+    get_keyword g = None -> is_int_zero g = false -> is_flex_basis g = false -> flex_factor g = Some G ->
+    is_int_zero s = false -> is_flex_basis s = false -> flex_factor s = Some S ->
+    is_int_zero b = false -> is_flex_basis b = true ->
+    flex_inner [g; b; s] = flex_yield G S b.
+  Proof.
+    intros Kg Zg Bg Fg Zs Bs Fs Zb Bb.
+    unfold C07Expand.flex_inner, flex_yield, single_kw_in, get_single_keyword. simpl.
+    rewrite ?Zg, ?Zs, ?Zb, ?Bg, ?Bs, ?Bb, ?Fg, ?Fs; simpl.
+    rewrite ?Zg, ?Zs, ?Zb, ?Bg, ?Bs, ?Bb, ?Fg, ?Fs; simpl.
+    rewrite ?Zg, ?Zs, ?Zb, ?Bg, ?Bs, ?Bb, ?Fg, ?Fs; simpl. reflexivity.
+  Qed.
 End ExpandProofs.
+
+(* the hypotheses of the theorems above are satisfiable *)
+Example four_names_margin : four_names "margin" = ["margin-top"; "margin-right"; "margin-bottom"; "margin-left"].
+Proof. reflexivity. Qed.
+Example four_names_border_color :
+  four_names "border-color" = ["border-top-color"; "border-right-color"; "border-bottom-color"; "border-left-color"].
+Proof. reflexivity. Qed.
+Example four_names_all :
+  map four_names ["padding"; "bleed"; "border-style"; "border-width"] =
+  [["padding-top"; "padding-right"; "padding-bottom"; "padding-left"];
+   ["bleed-top"; "bleed-right"; "bleed-bottom"; "bleed-left"];
+   ["border-top-style"; "border-right-style"; "border-bottom-style"; "border-left-style"];
+   ["border-top-width"; "border-right-width"; "border-bottom-width"; "border-left-width"]].
+Proof. reflexivity. Qed.
+
+Example four_sides_example :
+  let pv := fun (n : string) (ts : list tok) => match ts with [TAtom k] => Some k | _ => None end in
+  expand_four_sides Z (fun _ => true) (fun _ => true) pv [TAtom 1; TAtom 2; TAtom 3] "margin" =
+  Ok [("margin-top", VVal 1%Z); ("margin-right", VVal 2%Z); ("margin-bottom", VVal 3%Z); ("margin-left", VVal 2%Z)].
+Proof. reflexivity. Qed.
+
+Example border_side_example :
+  let pv := fun (n : string) (ts : list tok) => match ts with [TAtom k] => Some k | _ => None end in
+  let e := expand_border_side Z (fun _ => true) (fun _ => true) pv
+             (fun t => match t with TAtom 1 => true | _ => false end)
+             (fun t => match t with TAtom 2 => true | _ => false end)
+             (fun t => match t with TAtom 3 => true | _ => false end) in
+  e [TAtom 3; TAtom 1] "border-top" =
+  Ok [("border-top-width", VKeyword "initial"); ("border-top-color", VVal 1%Z); ("border-top-style", VVal 3%Z)]
+  /\ e [TAtom 1; TAtom 3] "border-top" = e [TAtom 3; TAtom 1] "border-top"
+  /\ e [TAtom 1; TAtom 1] "border-top" = Invalid.
+Proof. repeat split; reflexivity. Qed.
+
+Example border_radius_example :
+  let pv := fun (n : string) (ts : list tok) => match ts with [TAtom h; TAtom v] => Some (h * 10 + v)%Z | _ => None end in
+  expand_border_radius Z (fun _ => true) (fun _ => true) pv [TAtom 1; TAtom 2; TLit "/"; TAtom 3] "border-radius" =
+  Ok [("border-top-left-radius", VVal 13%Z); ("border-top-right-radius", VVal 23%Z);
+      ("border-bottom-right-radius", VVal 13%Z); ("border-bottom-left-radius", VVal 23%Z)].
+Proof. reflexivity. Qed.
+
